@@ -504,12 +504,22 @@ where
 	let mut missing_outs = vec![];
 	let mut accidental_spend_outs = vec![];
 	let mut locked_outs = vec![];
+	// highest child index seen on chain per account, over outputs the wallet already
+	// records as well as missing ones (an interrupted earlier scan may have restored
+	// outputs without getting as far as raising the account's child index)
+	let mut found_parents: HashMap<Identifier, u32> = HashMap::new();
 
 	// check all definitive outputs exist in the wallet outputs
 	for deffo in chain_outs.into_iter() {
 		let matched_out = wallet_outputs.iter().find(|wo| wo.commit == deffo.commit);
 		match matched_out {
 			Some(s) => {
+				let max = found_parents
+					.entry(deffo.key_id.parent_path())
+					.or_insert(deffo.n_child);
+				if deffo.n_child > *max {
+					*max = deffo.n_child;
+				}
 				if s.output.status == OutputStatus::Spent {
 					accidental_spend_outs.push((s.output.clone(), deffo.clone()));
 				}
@@ -540,8 +550,6 @@ where
 		batch.save(o)?;
 		batch.commit()?;
 	}
-
-	let mut found_parents: HashMap<Identifier, u32> = HashMap::new();
 
 	// Restore missing outputs, adding transaction for it back to the log
 	for m in missing_outs.into_iter() {
